@@ -61,6 +61,8 @@ RECIPES = [
     {"units": True, "rank3": False}, {"units": False, "rank3": False}, {"units": True, "rank3": True}, {"units": False, "rank3": True},
     # the same with a second, consistent block whose entities carry the same names and other units (singles only)
     {"units": True, "rank3": True, "decoy": "first"}, {"units": True, "rank3": True, "decoy": "last"},
+    # arrays that are not small: rank 11, 2100 ticks (singles only)
+    {"units": True, "rank3": False, "big": True}, {"units": False, "rank3": False, "big": True},
 ]
 
 
@@ -157,6 +159,29 @@ def build(f, rec):
     s1.create_source("src", "sourcetype")
     b.metadata = sec
     a1.metadata = sub
+    if rec.get("big"):
+        # an array of rank 11 (descriptors 1..11, every kind) with a tag that gives a position in all 11 dimensions,
+        # and an array with a range dimension of 2100 ticks
+        a11 = b.create_data_array("a11", "signal", data=np.zeros((2,) + (1,) * 10))
+        tunits = []
+        for i in range(11):
+            if i % 3 == 0:
+                a11.append_set_dimension(["p", "q"] if i == 0 else ["p"])
+                tunits.append("")
+            elif i % 3 == 1:
+                a11.append_sampled_dimension(0.5 * (i + 1), unit=("ms", "mV", "s", "Hz")[i % 4] if u else None)
+                tunits.append((("us", "uV", "ms", "kHz")[i % 4]) if u else "")
+            else:
+                a11.append_range_dimension([float(i)], unit=("A", "K", "mol")[i % 3] if u else None)
+                tunits.append((("mA", "mK", "mmol")[i % 3]) if u else "")
+        arrays["a11"] = a11
+        t11 = b.create_tag("t11", "tagtype", [0.0] * 11)
+        t11.units = tunits
+        t11.references.append(a11)
+        tags["t11"] = t11
+        along = b.create_data_array("along", "signal", data=np.zeros(2100))
+        along.append_range_dimension([float(i) * 0.5 for i in range(2100)], unit="ms" if u else None)
+        arrays["along"] = along
     if rec.get("decoy") == "last":
         build_decoy(f, "zblk")
     return {"b": b, "arrays": arrays, "tags": tags, "mt": mt, "pos": pos, "ext": ext, "grp": g, "src": s1, "sec": sec, "sub": sub}
@@ -293,6 +318,8 @@ def _i6b(ctx, rec):
         for i, d in enumerate(da.dimensions):
             if isinstance(d, nix.RangeDimension):
                 n = len(d.ticks)
+                if n > 200:
+                    continue            # (long tick vectors: see unsorted-ticks-deep-inside)
                 for dt in ("uint8", "int16", "float64", "uint64"):
                     vals = np.array([5, 3] + [7 + x for x in range(n - 2)], dtype=dt)
 
@@ -303,6 +330,22 @@ def _i6b(ctx, rec):
                         src.append_set_dimension()
                         obj(ctx, key).dimensions[i].link_data_array(src, [-1])
                     out.append((key, ap, refs_of(ctx, key[1])))
+    return out
+
+
+@inj("unsorted-ticks-deep-inside", "ticks", ["unsorted-ticks"])
+def _i6c(ctx, rec):
+    """two equal neighbours somewhere inside a long tick vector (positions 1023/1024, 2047/2048, ...)"""
+    out = []
+    for key in array_keys(ctx):
+        da = obj(ctx, key)
+        for i, d in enumerate(da.dimensions):
+            if isinstance(d, nix.RangeDimension) and len(d.ticks) > 1030:
+                n = len(d.ticks)
+                for k in (1023, 1024, 2047, 1500, n - 2):
+                    vals = [float(x) * 0.5 for x in range(n)]
+                    vals[k + 1] = vals[k]
+                    out.append((key, (lambda ctx, key=key, i=i, vals=vals: setattr(obj(ctx, key).dimensions[i], "ticks", vals)), refs_of(ctx, key[1])))
     return out
 
 
@@ -566,7 +609,7 @@ def run_case(case):
             got = errors.get(tid, set())
             if not any(k in got for k in I["kinds"]):
                 # documented masking
-                if I["name"] in ("tick-count-mismatch", "unsorted-ticks", "unsorted-ticks-from-linked-array") and "no-ticks" in got:
+                if I["name"] in ("tick-count-mismatch", "unsorted-ticks", "unsorted-ticks-from-linked-array", "unsorted-ticks-deep-inside") and "no-ticks" in got:
                     continue
                 if I["name"] == "negative-sampling-interval" and "no-interval" in got:
                     continue
@@ -588,7 +631,7 @@ def run_case(case):
             "positions-dimension-mismatch": {"positions-extents-mismatch", "extents-dim-mismatch"},
             "extents-shape-mismatch": {"extents-dim-mismatch"}, "missing-descriptor": {"units-mismatch"},
             "surplus-descriptor": {"units-mismatch"}, "unsorted-ticks": {"ticks-mismatch"},
-            "unsorted-ticks-from-linked-array": {"ticks-mismatch"},
+            "unsorted-ticks-from-linked-array": {"ticks-mismatch"}, "unsorted-ticks-deep-inside": {"ticks-mismatch"},
             "missing-sampling-interval": set(), "non-si-dimension-unit": set(),
         }
         for tid, I, _rel, key in ([] if interacting else applied):
